@@ -221,6 +221,7 @@ def msg_obs(m, kind):
 		d['method'] = str(m.method)
 	else:
 		d['status'] = int(m.status)
+		d['reason'] = str(m.status.reason)
 	d['protocol'] = [int(m.protocol.major), int(m.protocol.minor)]
 	return d
 
